@@ -128,7 +128,7 @@ class PathGen:
             sel = [chain + [v[i]]] if isinstance(v, list) and -len(v) <= i < len(v) else []
             return ["i", i], sel
         if kind == "slice":
-            if rng.random() < 0.15:
+            if rng.random() < 0.25:
                 # boundary slices: explicit zeros are not "absent" bounds, empty selections are answers too
                 n = len(v) if isinstance(v, list) else rng.randint(0, 3)
                 a, b, c = rng.choice([(None, 0, None), (0, 0, None), (0, None, None), (None, 0, -1), (0, 0, -1),
